@@ -234,6 +234,54 @@ def unknown_id_obligation():
     return lambda pkg: run_obligation(pkg, fn)
 
 
+def unknown_id_any_size_obligation():
+    """An edge naming ids that the graph's vertex list lacks raises for *every* size of that list, the empty one included."""
+    def fn(it):
+        ids = [Poly.var("ida"), Poly.var("idb"), Poly.var("idc")]
+        n = 0
+        for present in ([], [0], [1], [0, 2], [2, 1]):
+            for pair in itertools.permutations(range(3), 2):
+                if all(k in present for k in pair):
+                    continue
+                verts = [it.construct("Vertex", [ids[k], sym_pose("PoseR2", "p%d" % k)]) for k in present]
+                edge = custom_edge(it, [ids[pair[0]], ids[pair[1]]], None, None, None)
+                edge.stubs["is_valid"] = lambda: True
+                try:
+                    it.construct("Graph", [[edge], verts])
+                except PathRaise:
+                    n += 1
+                    continue
+                raise ObFail("a graph with %d vertices accepts an edge naming a vertex id that none of them has" % len(present))
+        return dict(rejections=n)
+    return lambda pkg: _run_ob(pkg, fn)
+
+
+def history_obligation():
+    """Construction is a function of its own arguments: an id known only to a graph built *earlier* is unknown to this one, and an id
+    that both graphs use is bound to this graph's vertex."""
+    def fn(it):
+        ids = [Poly.var("ida"), Poly.var("idb"), Poly.var("idc")]
+        first_verts = [it.construct("Vertex", [ids[k], sym_pose("PoseR2", "f%d" % k)]) for k in range(3)]
+        e0 = custom_edge(it, [ids[0], ids[2]], None, None, None)
+        e0.stubs["is_valid"] = lambda: True
+        it.construct("Graph", [[e0], first_verts])
+        verts = [it.construct("Vertex", [ids[k], sym_pose("PoseR2", "p%d" % k)]) for k in range(2)]
+        e1 = custom_edge(it, [ids[1], ids[0]], None, None, None)
+        e1.stubs["is_valid"] = lambda: True
+        it.construct("Graph", [[e1], verts])
+        bound = ga(e1, "vertices", None)
+        if not isinstance(bound, list) or len(bound) != 2 or bound[0] is not verts[1] or bound[1] is not verts[0]:
+            raise ObFail("after an earlier graph used the same ids, a new graph's edge is bound to vertices that are not the new graph's own")
+        e2 = custom_edge(it, [ids[0], ids[2]], None, None, None)
+        e2.stubs["is_valid"] = lambda: True
+        try:
+            it.construct("Graph", [[e2], [it.construct("Vertex", [ids[k], sym_pose("PoseR2", "q%d" % k)]) for k in range(2)]])
+        except PathRaise:
+            return dict(history_independent=True)
+        raise ObFail("an edge naming an id that only a previously constructed graph knows is accepted (state shared between graphs)")
+    return lambda pkg: _run_ob(pkg, fn)
+
+
 def invalid_edge_obligation(result):
     def fn(it):
         ids = [Poly.var("ida"), Poly.var("idb")]
@@ -340,6 +388,8 @@ def run(run_, pkg, tier):
     btasks = [("C18-B1/Graph._initialize/binding", "C18-B1-bind-by-id", binding_obligation(), where),
               ("C18-B1/Graph._initialize/unknown-id-raises", "C18-B1-bind-by-id", unknown_id_obligation(), where),
               ("C18-B1/Graph._initialize/prebound-edges-rebound", "C18-B1-bind-by-id", prebound_obligation(), where),
+              ("C18-B1/Graph._initialize/unknown-id-raises[any-list-size]", "C18-B1-bind-by-id", unknown_id_any_size_obligation(), where),
+              ("C18-B1/Graph._initialize/independent-of-earlier-graphs", "C18-B1-bind-by-id", history_obligation(), where),
               ("C18-B1/Graph._initialize/integer-ids-0..3", "C18-B1-bind-by-id", concrete_ids_obligation([0, 1, 2, 3]), where),
               ("C18-B1/Graph._initialize/integer-ids-sparse", "C18-B1-bind-by-id", concrete_ids_obligation([-5, 0, 7, 10 ** 12]), where),
               ("C18-B1/Graph._initialize/invalid-edge-raises[False]", "C18-B1-validity-asserted", invalid_edge_obligation(False), where),
